@@ -75,8 +75,18 @@ def generate(rng, tier):
             spec = F.gen_fa(rng, max_states=3, pool=rng.choice(["int", "str"]))
             spec["symvals"] = ["a", "b", "c"][:len(spec["symvals"])]
             r["fa"] = spec
-        yield {"g": G.gen_cfg(rng, max_vars=3, max_prods=5, adversarial=False), "p": P.gen_pda(rng, adversarial=False),
-               "r": r}
+        pspec = P.gen_pda(rng, adversarial=False)
+        pedit = []
+        if pspec["delta"] and rng.random() < 0.35:
+            # transitions added to the same PDA object after a first intersection: one on an existing
+            # (state, symbol, stack top) key with another outcome, possibly one on a new key
+            q, a, x, _q2, _push = rng.choice(pspec["delta"])
+            pedit.append([q, a, x, rng.choice(pspec["states"]),
+                          [rng.choice(pspec["stack"]) for _ in range(rng.choice([0, 1, 2]))]])
+            if rng.random() < 0.4:
+                pedit.append([rng.choice(pspec["states"]), rng.choice(pspec["inputs"] + [None]), rng.choice(pspec["stack"]),
+                              rng.choice(pspec["states"]), [rng.choice(pspec["stack"])]])
+        yield {"g": G.gen_cfg(rng, max_vars=3, max_prods=5, adversarial=False), "p": pspec, "pedit": pedit, "r": r}
 
 
 def run_case(case, drv):
@@ -158,47 +168,56 @@ def run_case(case, drv):
     # ---- PDA ∩ R ---------------------------------------------------------------------------------
     st, pda = outcome(lambda: P.build(case["p"]))
     if st == "ok":
-        p = P.extract(pda)
-        inputs = sorted(set(p["inputs"]))
-        words = G.words_upto(inputs, 3)
-        st, I = outcome(lambda: pda.intersection(robj), limit=10.0)
-        if st != "ok":
-            res.violation("pda.intersection", "raised / hung: %s" % (I if st == "exc" else st),
-                          detail={"outcome": [st, I]})
-        else:
-            # states of the result are State((pda_state, fa_state)); flatten to strings for the oracle
-            def key(v):
-                if isinstance(v, tuple) and len(v) == 2:
-                    return "%s~%s" % (v[0].value, str(v[1].value))
-                return str(v)
-            st, ip = outcome(lambda: P.extract(I, state_key=key))
-            if st == "ok" and ip["start"] is not None:
-                acc_p = drv.call("pda.acc", P=p, mode="final", words=words)
-                codes = [[symnames.index(a) if a in symnames else 99 for a in w] for w in words]
-                mem_r = drv.call("fa.member", A=R, words=codes)
-                acc_i = drv.call("pda.acc", P=ip, mode="final", words=words)
-                for w, a, b, c in zip(words, acc_i, acc_p, mem_r):
-                    res.evals += 1
-                    if a is None or b is None:
-                        continue
-                    if a != (b and c):
-                        res.violation("pda.intersection", "result differs from (accepted by the PDA by final state and by r)",
-                                      detail={"word": w, "result": a, "pda": b, "regular": c})
-                        break
-                # structural model only when r is used as is (deterministic automaton operand)
-                if rspec["kind"] == "fa" and outcome(robj.is_deterministic) == ("ok", True) and R["starts"]:
-                    M = drv.call("pda.inter", P=p, D=R, symNames=symnames)
-                    if M is not None:
-                        res.corr += 1
-                        def mkey(pair):
-                            return "%s~%s" % (pair[0], str(scodes.values[pair[1]]))
-                        Mx = {**M, "states": [mkey(s) for s in M["states"]], "start": mkey(M["start"]),
-                              "finals": [mkey(s) for s in M["finals"]],
-                              "delta": [[mkey(t[0]), t[1], t[2], mkey(t[3]), t[4]] for t in M["delta"]]}
-                        diff = P.same(ip, Mx, ("start", "startStack", "finals", "delta"))
-                        if diff:
-                            res.corr_break("pda.intersection", "structure differs from model: %s" % diff,
-                                           detail={"impl": ip, "model": Mx})
+        rounds = [None] + ([case["pedit"]] if case.get("pedit") else [])
+        for edit in rounds:
+            if edit is not None:
+                # the same object, extended through the public API after the first intersection
+                st_e, _e = outcome(lambda: [pda.add_transition(q, P.PEps() if a is None else a, x, q2, push)
+                                            for q, a, x, q2, push in edit])
+                if st_e != "ok":
+                    break
+                res.tag("pda_edited_between_intersections")
+            p = P.extract(pda)
+            inputs = sorted(set(p["inputs"]))
+            words = G.words_upto(inputs, 3)
+            st, I = outcome(lambda: pda.intersection(robj), limit=10.0)
+            if st != "ok":
+                res.violation("pda.intersection", "raised / hung: %s" % (I if st == "exc" else st),
+                              detail={"outcome": [st, I]})
+            else:
+                # states of the result are State((pda_state, fa_state)); flatten to strings for the oracle
+                def key(v):
+                    if isinstance(v, tuple) and len(v) == 2:
+                        return "%s~%s" % (v[0].value, str(v[1].value))
+                    return str(v)
+                st, ip = outcome(lambda: P.extract(I, state_key=key))
+                if st == "ok" and ip["start"] is not None:
+                    acc_p = drv.call("pda.acc", P=p, mode="final", words=words)
+                    codes = [[symnames.index(a) if a in symnames else 99 for a in w] for w in words]
+                    mem_r = drv.call("fa.member", A=R, words=codes)
+                    acc_i = drv.call("pda.acc", P=ip, mode="final", words=words)
+                    for w, a, b, c in zip(words, acc_i, acc_p, mem_r):
+                        res.evals += 1
+                        if a is None or b is None:
+                            continue
+                        if a != (b and c):
+                            res.violation("pda.intersection", "result differs from (accepted by the PDA by final state and by r)",
+                                          detail={"word": w, "result": a, "pda": b, "regular": c})
+                            break
+                    # structural model only when r is used as is (deterministic automaton operand)
+                    if rspec["kind"] == "fa" and outcome(robj.is_deterministic) == ("ok", True) and R["starts"]:
+                        M = drv.call("pda.inter", P=p, D=R, symNames=symnames)
+                        if M is not None:
+                            res.corr += 1
+                            def mkey(pair):
+                                return "%s~%s" % (pair[0], str(scodes.values[pair[1]]))
+                            Mx = {**M, "states": [mkey(s) for s in M["states"]], "start": mkey(M["start"]),
+                                  "finals": [mkey(s) for s in M["finals"]],
+                                  "delta": [[mkey(t[0]), t[1], t[2], mkey(t[3]), t[4]] for t in M["delta"]]}
+                            diff = P.same(ip, Mx, ("start", "startStack", "finals", "delta"))
+                            if diff:
+                                res.corr_break("pda.intersection", "structure differs from model: %s" % diff,
+                                               detail={"impl": ip, "model": Mx})
         st, _ = outcome(lambda: pda.intersection("a*"))
         res.evals += 1
         if (st, _) != ("exc", "NotImplementedError"):
